@@ -55,7 +55,10 @@ Lower(c) == [i \in DOMAIN c |-> IF IsUpper(c[i]) THEN c[i] + 32 ELSE c[i]]
 RECURSIVE Spread(_, _, _)
 Spread(c, i, sep) == IF i > Len(c) THEN <<>> ELSE <<c[i]>> \o (IF i % 3 = 0 /\ i < Len(c) THEN <<sep>> ELSE <<>>) \o Spread(c, i + 1, sep)
 Formats(cc, c) == {Spread(c, 1, 32), Spread(c, 1, 46), Spread(c, 1, 45), Lower(c), CC(cc) \o c, Lower(CC(cc)) \o <<32>> \o Spread(Lower(c), 1, 46)}
-                  \cup (IF cc = "EL" THEN {<<71, 82>> \o c} ELSE {}) \cup (IF cc = "CH" THEN {<<67, 72>> \o c \o <<77, 87, 83, 84>>, <<67, 72>> \o c \o <<32, 84, 86, 65>>} ELSE {})
+                  \cup (IF cc = "EL" THEN {<<71, 82>> \o c} ELSE {}) \cup (IF cc = "CH" THEN {<<67, 72>> \o c \o <<77, 87, 83, 84>>, <<67, 72>> \o c \o <<32, 84, 86, 65>>,
+                                                         \* the suffixes in lower and mixed case, with punctuation inside the code
+                                                         <<99, 104, 101, 45>> \o Spread(Tail(c), 1, 46) \o <<32, 109, 119, 115, 116>>,
+                                                         c \o <<32, 116, 118, 97>>, c \o <<73, 118, 97>>, Lower(c) \o <<105, 118, 97>>, c \o <<45, 77, 119, 83, 116>>} ELSE {})
 
 VARIABLES cc, code
 vars == <<cc, code>>
@@ -74,6 +77,17 @@ Cases == UNION {UNION {{Case(r, c, c, TRUE, "valid")}
                        \cup {Case(r, e, e, Valid(r, e), "substitution") : e \in Subst(c)}
                        \cup {Case(r, SwapLast(c), SwapLast(c), Valid(r, SwapLast(c)), "transposition")}
                        \cup {Case(r, f, c, TRUE, "formatted") : f \in Formats(r, c)} : c \in ValidCodes(r)} : r \in Regimes}
+\* BE: the nine digit form of every valid number, its single-digit changes, and nine digit texts that begin with 0
+\* whose check digits agree (not of the national format: the number itself would begin with 0)
+BENineBad == {c \in {<<Dg(0)>> \o b \o k : b \in Bodies(6) \cup Prog(6, 123450, 40), k \in Checks2} : c[2] # Dg(0) /\ BEcheck(<<48>> \o c)}
+BECases == UNION {{Case("BE", Tail(c), Tail(c), TRUE, "nine-digit")}
+                  \cup {Case("BE", e, e, Valid("BE", e), "nine-digit-substitution") : e \in Subst(Tail(c))}
+                  \cup {Case("BE", f, Tail(c), TRUE, "nine-digit-formatted") : f \in {Spread(Tail(c), 1, 46), CC("BE") \o Tail(c), Lower(CC("BE")) \o <<32>> \o Spread(Tail(c), 1, 32)}} : c \in ValidCodes("BE")}
+           \cup {Case("BE", c, c, FALSE, "nine-digit-leading-zero") : c \in BENineBad}
+BELaw == /\ \A c \in ValidCodes("BE") : Valid("BE", Tail(c)) /\ \A e \in Subst(Tail(c)) : ~Valid("BE", e)
+         /\ BENineBad # {} /\ \A c \in BENineBad : ~Valid("BE", c)
+         /\ \E c \in ValidCodes("BE") : c[3] = Dg(0)
+ASSUME BELaw
 \* FR: bare SIRENs (Luhn digit found by search), each promoted to the VAT number, and every single-digit change of them
 Sirens == {c \in {b \o k : b \in Bodies(8) \cup Prog(8, 35600000, (IF Scope = "quick" THEN 12 ELSE 60)), k \in Checks1} : IsSiren(c)}
 SirenCases == UNION {{Case("FR", c, Normalize("FR", c), TRUE, "siren")}
@@ -82,6 +96,6 @@ SirenCases == UNION {{Case("FR", c, Normalize("FR", c), TRUE, "siren")}
 SirenLaw == \A c \in Sirens : /\ Valid("FR", Normalize("FR", c)) /\ Len(Normalize("FR", c)) = 11
                               /\ \A e \in Subst(c) : ~IsSiren(e) /\ Normalize("FR", e) = e /\ ~Valid("FR", e)
 ASSUME SirenLaw
-Export == IF "OUT" \in DOMAIN IOEnv THEN ndJsonSerialize(IOEnv.OUT, SetToSeq(Cases \cup SirenCases)) ELSE TRUE
+Export == IF "OUT" \in DOMAIN IOEnv THEN ndJsonSerialize(IOEnv.OUT, SetToSeq(Cases \cup SirenCases \cup BECases)) ELSE TRUE
 ASSUME Export
 =============================================================================
